@@ -347,8 +347,11 @@ def modelTick (sc : Json) (c : TickCtx) (gateOpen : Bool) : List Ev × Ret × Bo
     let rc := match c.impl.evs.find? (fun e => match e with | .dbus _ _ => true | _ => false) with
       | some (.dbus _ rc) => rc
       | _ => 0
-    let (evs, r) := runRestart { dry := c.cfg.dry } rc
-    (evs, r, true)
+    let dly := ((jstr? (jobj (jobj sc "cfg") "args") "post_action_delay").bind String.toNat?).getD Generated.restartDefPostActionDelay
+    let rcfg : RestartCfg := { dry := c.cfg.dry, delay := dly }
+    let (evs, r) := runRestart rcfg rc
+    -- third component: the time run() took is the model's sleep (virtual clock; nothing else in this plugin takes time)
+    (evs, r, jint c.tk "elapsed_ns" == Int.ofNat (restartSleep rcfg rc) * 1000000000)
   else if !gateOpen then ([], .async, true)
   else
     let run (rev : Bool) : List Ev × Ret × Bool :=
